@@ -11,6 +11,7 @@ import (
 	"encoding/json"
 	"fmt"
 	"math"
+	"strconv"
 	"strings"
 
 	"github.com/google/mtail/internal/runtime/compiler/ast"
@@ -81,6 +82,7 @@ type value struct {
 	Set      bool    `json:"set"`
 	I        int64   `json:"i"`
 	F        float64 `json:"f"`
+	FS       string  `json:"fs"` // exact rendering of F (NaN and infinities survive)
 }
 
 func runReal(name, src string, optimise bool, line string) (v value) {
@@ -98,6 +100,7 @@ func runReal(name, src string, optimise bool, line string) (v value) {
 			if len(m.LVs) == 1 {
 				v.Set = true
 				v.I, v.F = m.LVs[0].I, m.LVs[0].F
+				v.FS = strconv.FormatFloat(v.F, 'g', -1, 64)
 				if math.IsNaN(v.F) || math.IsInf(v.F, 0) {
 					v.F = 0
 				}
